@@ -16,6 +16,7 @@ import (
 	"math/big"
 	"os"
 	"path/filepath"
+	"regexp"
 	"sort"
 	"strconv"
 	"strings"
@@ -94,6 +95,12 @@ func errClass(err error) string {
 		return "kdf"
 	case strings.HasPrefix(m, "encrypted key content mismatch"):
 		return "mismatch"
+	case strings.HasPrefix(m, "invalid KDF params") || strings.HasPrefix(m, "invalid scrypt params"):
+		return "kdfParams"
+	case strings.HasPrefix(m, "invalid IV"):
+		return "ivLength"
+	case strings.HasPrefix(m, "key file corrupted"):
+		return "corrupted"
 	case strings.Contains(m, "unexpected end of JSON") || strings.HasPrefix(m, "json:") || strings.HasPrefix(m, "invalid character"):
 		return "json"
 	}
@@ -211,7 +218,7 @@ func absFields(a keystore.VerifKeyFile) string {
 		kps = strings.Join(kp, ",")
 	}
 	return strings.Join([]string{b2i(a.JSONOk), vt, b2i(a.V1Ok), b2i(a.V3Ok), strconv.Itoa(a.Version3), hs(a.Cipher), hs(a.CipherText),
-		hs(a.IV), hs(a.KDF), hs(a.MAC), kps}, " ")
+		hs(a.IV), hs(a.KDF), hs(a.MAC), kps, hs(a.Address)}, " ")
 }
 
 type kdfOut struct {
@@ -319,14 +326,15 @@ func oracles(a keystore.VerifKeyFile, pw string, extra [][]byte) string {
 
 // expectation of the property for one call
 type expect struct {
-	kind string // R: must return the original key; W: wrong passphrase, must fail with an error; T: tampered, error or original
+	kind string // R: must return the original key; W: wrong passphrase, must fail with an error; T: tampered, error or original;
+	// N: a file WITHOUT an address field (never written by this keystore): outside the property, only "no crash" is judged
 	key  []byte
 	addr common.Address
 }
 
 func (e expect) String() string {
-	if e.kind == "W" {
-		return "W"
+	if e.kind == "W" || e.kind == "N" {
+		return e.kind
 	}
 	return e.kind + ":" + hex.EncodeToString(e.key) + ":" + hex.EncodeToString(e.addr[:])
 }
@@ -384,7 +392,7 @@ func judge(o origin, e expect, out string, input map[string]interface{}) {
 		cls = "err:" + f[1]
 	} else if len(f) >= 1 {
 		cls = f[0]
-		if f[0] == "ok" && e.kind == "T" {
+		if f[0] == "ok" && (e.kind == "T" || e.kind == "N") {
 			if isOrig() {
 				cls = "ok-original"
 			} else {
@@ -455,6 +463,8 @@ func importCase(o origin, e expect, js []byte, pw string) {
 		return "ok " + hex.EncodeToString(acc.Address[:])
 	})
 	judge(o, e, out, map[string]interface{}{"keyjson": string(js), "passphrase": pw})
+	a := keystore.VerifAbstract(js)
+	run.Case("im "+e.String()+" "+absFields(a)+" "+hs(pw)+" "+oracles(a, pw, [][]byte{e.key}), canon(out))
 	n := len(ks.Accounts())
 	if strings.HasPrefix(out, "err") && n != 0 {
 		violate("flow", "Import failed but stored an account", map[string]interface{}{"keyjson": string(js), "passphrase": pw}, out)
@@ -708,6 +718,18 @@ func mkBase(rng *hx.Rng, format string, zeros, passKind, n, p int) base {
 	return base{format, js, pw, scalar, addr}
 }
 
+// stripAddress removes the "address" member from a key file text.
+var addressMember = regexp.MustCompile(`"address":"[0-9a-fA-F]*",`)
+
+func stripAddress(js []byte) []byte { return addressMember.ReplaceAll(js, nil) }
+
+// carriesAddress: every file this keystore writes names the address of its key (what a73be14 relies on).
+func carriesAddress(step string, js []byte, addr common.Address) {
+	if a := keystore.VerifAbstract(js); !strings.EqualFold(strings.TrimPrefix(a.Address, "0x"), hex.EncodeToString(addr[:])) {
+		violate("flow", step+": key file without its address", map[string]interface{}{"keyjson": string(js)}, "address field is "+a.Address)
+	}
+}
+
 // ---------------------------------------------------------------------------------------------------------------
 // tampering
 
@@ -877,6 +899,7 @@ func flow(rng *hx.Rng, zeros, passKind, n, p int, lite bool) {
 	if err != nil {
 		panic(err)
 	}
+	carriesAddress("ImportECDSA", js, addr)
 	dkCase(origin{"bare DecryptKey", format, "", ""}, eR, js, pw)
 	misses := nearMiss(rng, pw, false)
 	if lite && len(misses) > 2 {
@@ -915,6 +938,7 @@ func flow(rng *hx.Rng, zeros, passKind, n, p int, lite bool) {
 		flowFail("Export", in, fmt.Sprintf("%v", err))
 		return
 	}
+	carriesAddress("Export", js2, addr)
 	dkCase(origin{"bare DecryptKey", format, "", ""}, eR, js2, pw2)
 	if _, err := ks.Export(acc, misses[0], pw2); err == nil {
 		violate("wrong-pass-accepted", "KeyStore.Export "+format, in, fmt.Sprintf("Export with another passphrase: %v", err))
@@ -948,6 +972,7 @@ func flow(rng *hx.Rng, zeros, passKind, n, p int, lite bool) {
 		return
 	}
 	js3, _ := os.ReadFile(acc.URL.Path)
+	carriesAddress("Update", js3, addr)
 	dkCase(origin{"bare DecryptKey", format, "", ""}, eR, js3, pw4)
 	if pw != pw4 {
 		if err := ks.Unlock(acc, pw); err == nil {
@@ -992,6 +1017,7 @@ func flow(rng *hx.Rng, zeros, passKind, n, p int, lite bool) {
 		return
 	}
 	js4, _ := os.ReadFile(acc3.URL.Path)
+	carriesAddress("NewAccount", js4, acc3.Address)
 	k4, err := keystore.DecryptKey(js4, pw)
 	if err != nil || k4.Address != acc3.Address || crypto.PubkeyToAddress(k4.PrivateKey.PubKey()) != acc3.Address {
 		violate("roundtrip", "KeyStore.NewAccount "+format, in, fmt.Sprintf("DecryptKey of the new account's file: %v", err))
@@ -1018,11 +1044,12 @@ func encCase(rng *hx.Rng, zeros, passKind, n, p int) {
 		violate("flow", "EncryptKey", map[string]interface{}{"key": hex.EncodeToString(scalar), "passphrase": pw}, err.Error())
 		return
 	}
+	carriesAddress("EncryptKey", js, k.Address)
 	a := keystore.VerifAbstract(js)
 	salt, _ := hex.DecodeString(a.KDFParams["salt"].(string))
 	iv, _ := hex.DecodeString(a.IV)
 	or := strings.Fields(oracles(a, pw, nil))
-	out := "ok " + absFields(a) + " " + hs(a.Address) + " " + hs(a.Id)
+	out := "ok " + absFields(a) + " " + hs(a.Id)
 	run.Case(fmt.Sprintf("enc %s %s %s %s %s %s %d %d %s %s", hex.EncodeToString(scalar), hex.EncodeToString(k.Address[:]), hs(a.Id), hs(pw),
 		hx.Hex(salt), hx.Hex(iv), n, p, or[0], or[1]), out)
 	run.Count("enc")
@@ -1093,6 +1120,40 @@ func main() {
 	}
 
 	run.Notes["t_tamper_s"] = time.Since(t0).Seconds()
+	// 2b. the residual of the IV clause: key files WITHOUT an "address" field.  This keystore never writes such a file
+	// (checked in every flow and for every EncryptKey output), so they are outside "a key stored under a passphrase";
+	// bare DecryptKey has nothing to compare the decrypted key with.  Probed explicitly and reported as residual:* counts.
+	rr := rng.Fork(5)
+	for fi, f := range formats {
+		b := mkBase(rr, f, fi%4, 1+fi, 2, 1)
+		na := stripAddress(b.js)
+		if keystore.VerifAbstract(na).Address != "" {
+			panic("stripAddress failed")
+		}
+		dkCase(origin{"bare DecryptKey (file without address)", f, "", ""}, expect{"R", b.key, b.addr}, na, b.pw)
+		eN := expect{"N", b.key, b.addr}
+		for _, sp := range spans(na) {
+			if sp.field != "iv" || sp.isName {
+				continue
+			}
+			for pos := sp.start; pos < sp.end; pos++ {
+				if !thorough && rr.Intn(4) != 0 {
+					continue
+				}
+				t := append([]byte{}, na...)
+				for t[pos] == na[pos] {
+					t[pos] = hexLower[rr.Intn(16)]
+				}
+				out := dkCase(origin{"bare DecryptKey (file without address)", f, "iv", "iv altered"}, eN, t, b.pw)
+				if strings.HasPrefix(out, "ok") && !strings.Contains(out, hex.EncodeToString(b.addr[:])) {
+					run.Count("residual:file-without-address+IV-altered:bare-DecryptKey-yields-other-key")
+				}
+				importCase(origin{"KeyStore.Import (file without address)", f, "iv", "iv altered"}, eN, t, b.pw)
+				gkCase(origin{"KeyStore.Unlock (file without address)", f, "iv", "iv altered"}, eN, t, b.pw) // never listed: no account to unlock
+			}
+		}
+	}
+
 	// 3. near-miss passphrases on every format
 	pr := rng.Fork(3)
 	np := 3
